@@ -46,7 +46,9 @@ CHECKS = {
     "C11": {"parts": [P("dountilquorum", "./c11", "^TestC11$", shards={"quick": 12, "thorough": 12}, budget={"quick": 200, "thorough": 1200}, gomaxprocs=1, overlay=RS_OV),
                       P("multi-set", "./c11", "^TestC11Multi$", shards={"quick": 4, "thorough": 4}, budget={"quick": 200, "thorough": 1200}, gomaxprocs=1, overlay=RS_OV_MULTI)]},
     "C12": {"parts": [P("instance-shards", "./c12", "^TestC12Instances$"), P("instance-lookback", "./c12", "^TestC12Lookback$"), P("partition-shards", "./c12", "^TestC12Partitions$")]},
-    "C13": {"parts": [P("ring-client", "./c13", "^TestC13Ring$"), P("partition-watcher", "./c13", "^TestC13Partitions$")]},
+    "C13": {"parts": [P("ring-client", "./c13", "^TestC13Ring$"), P("partition-watcher", "./c13", "^TestC13Partitions$"),
+                      P("concurrent-readers", "./c13", "^TestC13Concurrent$", shards={"quick": 12, "thorough": 16}, budget={"quick": 200, "thorough": 1200}, gomaxprocs=1,
+                        overlay=[{"file": "ring/ring.go", "rewrite": ['"sync"']}])]},
     "C14": {"parts": [P("instance-ranges", "./c14", "^TestC14Instances$"), P("partition-ranges", "./c14", "^TestC14Partitions$")]},
     "C16": {"parts": [P("random-generator", "./c16", "^TestC16Random$"), P("spread-minimizing", "./c16", "^TestC16SpreadMinimizing$")]},
     "C18": {"parts": [P("init-order", "./c18", "^TestC18Init$"), P("cycle-rejection", "./c18", "^TestC18Cycles$"),
